@@ -94,6 +94,18 @@ def run(ctx):
                         only=(_C + "decr_depth", "minijinja::vm::state::BlockStack::pop"),
                         why=": the unsigned counter underflows (a panic with overflow checks, a wrapped recursion depth without)")
     ctx.floor("C01.P10 decrement sites of interpreter counters", n10, 4)
+    # P11: a loop-control jump cannot leave the evaluation it was compiled in.  Bodies that are evaluated separately
+    # (macro and call-block bodies: own frame; block bodies: own generator) are parsed with `in_loop` reset, so
+    # `break` / `continue` in them is a syntax error rather than a jump to the enclosing loop's PopLoopFrame, which
+    # would unwrap a loop frame that the callee's context does not have (a panic).
+    progL = ctx.program("ORD") if "ORD" in ctx.configs() else ctx.program("MAX")
+    if progL.has_fn("minijinja::compiler::parser::Parser::parse_macro_or_call_block_body"):
+        from ..brackets import Analysis
+        from .c05 import check_parser_resets
+        anL = Analysis(progL, lambda *a, **k: None)
+        for gname in sorted(k for k, f_ in progL.fns.items() if k.startswith("minijinja::compiler::codegen::CodeGenerator::") and f_.kind != "closure"):
+            anL.summary(gname)
+        check_parser_resets(ctx, progL, "", anL, prefix="C01.P11")
     for cname in ctx.configs():
         prog = ctx.program(cname)
         tag = "" if cname == "MAX" else "[%s]" % cname
